@@ -345,7 +345,9 @@ class Engine:
 
     @cached_property
     def map_builder(self) -> str:
-        return self._one("map builder", self._methods_subscripting(self.message_cls, "PRNSIGMAP"))
+        mod, cls = self.message_cls.split(".")
+        c = [f.qualname for f in self.repo.methods(mod, cls) if any(isinstance(n, ast.Name) and n.id == "PRNSIGMAP" for n in walk_no_nested(f.node))]
+        return self._one("map builder", c)
 
     @cached_property
     def cycle_helpers(self) -> set[str]:
